@@ -49,7 +49,7 @@ def replay(ck, cases, x64, label="LowRank_Gen replay"):
     c = j["case"]
     ck.count(1, key=[mode, c["part"], {k: v for k, v in c.items() if k in ("d", "r", "rank", "ps", "shape", "ptype")}])
     for k, v in r["worst"].items():
-      tol = {"root_abs": TOL_ROOT, "root_rel": TOL_ROOT, "selection": TOL_ROOT, "padding_rows": 1e-6,
+      tol = {"root_abs": TOL_ROOT, "root_rel": 2e-4, "selection": TOL_ROOT, "padding_rows": 1e-6,
              "apply": j["tol"]}[k]
       ck.calib(f"{k}.{mode}", v, tol)
     if r["bad"]:
